@@ -108,6 +108,7 @@ type subSnap struct {
 }
 type itemSnap struct {
 	sub, owner, mode int
+	indexed          bool // still listed under its node (gets change notifications) and under its subscription
 }
 type snap struct {
 	subs  map[uint32]subSnap
@@ -125,7 +126,14 @@ func (e *env) snapshot() snap {
 	ms := e.srv.MonitoredItemService
 	ms.Mu.Lock()
 	for id, it := range ms.Items {
-		s.items[id] = itemSnap{int(it.Sub.ID), e.owner(it.Sub.VerifOwner()), int(it.Mode)}
+		inNode, inSub := false, false
+		for _, x := range ms.Nodes[it.Req.ItemToMonitor.NodeID.String()] {
+			inNode = inNode || x == it
+		}
+		for _, x := range ms.Subs[it.Sub.ID] {
+			inSub = inSub || x == it
+		}
+		s.items[id] = itemSnap{int(it.Sub.ID), e.owner(it.Sub.VerifOwner()), int(it.Mode), inNode && inSub}
 	}
 	ms.Mu.Unlock()
 	return s
@@ -156,7 +164,11 @@ func (e *env) stateTok() string {
 	sort.Ints(ids)
 	for _, id := range ids {
 		it := s.items[uint32(id)]
-		items = append(items, fmt.Sprintf("%d@%d@%d@%d", id, it.sub, it.owner, it.mode))
+		x := fmt.Sprintf("%d@%d@%d@%d", id, it.sub, it.owner, it.mode)
+		if !it.indexed {
+			x += "!unindexed" // the model has no such state: an item in Items is always listed
+		}
+		items = append(items, x)
 	}
 	ids = ids[:0]
 	for _, t := range e.pend {
@@ -310,6 +322,16 @@ func (e *env) applyToken(k int, caseName string) string {
 	}
 	if t.by != 0 && victim.owner != t.by && victim.obj == t.target {
 		e.fail(caseName, "", fmt.Sprintf("DeleteSubscriptions by session %d deleted subscription %d of session %d", t.by, t.id, victim.owner))
+	}
+	// ---- oracle: the call removes the items of that subscription id and leaves all others as they were
+	post := e.snapshot()
+	for id, it := range pre.items {
+		if uint32(it.sub) == t.id {
+			continue
+		}
+		if p, ok := post.items[id]; !ok || p != it {
+			e.fail(caseName, "", fmt.Sprintf("the background DeleteSubscription(%d) changed monitored item %d of subscription %d (session %d): before %+v, after %+v present=%v", t.id, id, it.sub, it.owner, it, p, ok))
+		}
 	}
 	// the goroutine of the subscription that was shut down calls DeleteSubscription again
 	nt := e.waitArrival()
@@ -660,6 +682,9 @@ func (e *env) next() op {
 			if j == 0 {
 				own = w
 			}
+		}
+		if e.rnd.Chance(12) {
+			o.ids = append(o.ids, o.ids[0]) // the same id twice in one request
 		}
 		o.sess = pick(own)
 		return o
